@@ -619,6 +619,107 @@ def case_line(case, structure=None, alg: str = "new") -> str:
     return " ".join(toks)
 
 
+# =========================================================================== `eval` protocol line
+# Histories of executions/linearizations on a FLAT chain (MDOChain of leaves, or the chain an MDAChain
+# built): the driver runs EChain.exec/lin (mdaExec/mdaLin) of Model/C09 on opaque values and answers,
+# per operation, the output data (execute) or the data every leaf holds when it computes its Jacobian.
+
+
+def _vals(vec) -> str:
+    return ",".join(rat(Fraction(e)) for e in vec)
+
+
+def _data(names, env) -> str:
+    return ";".join(f"{n}={_vals(env[n])}" for n in sorted(set(names))) if names else "-"
+
+
+_CK = {"SimpleCache": "s", "": "n", "MemoryFullCache": "f"}
+
+
+def eval_ops(case):
+    """[(op, point, request index, kind)]: the operations of the history as the `eval` line lists them."""
+    ops = []
+    cum_in: set[str] = set()
+    cum_out: set[str] = set()
+    for k, req in enumerate(case["reqs"]):
+        cum_in |= set(req["in"])
+        cum_out |= set(req["out"])
+        if not req["all"] and (not cum_in or not cum_out):
+            continue  # nothing requested: impl_run does not call the process
+        for j, q in enumerate(req.get("pre", [])):
+            ops.append(("x", q, k, ("pre", j)))
+        if req.get("call") == "exec-first":
+            ops.append(("x", req["point"], k, ("exec-first", 0)))
+            ops.append(("l0", req["point"], k, ("lin", 0)))
+        else:
+            ops.append(("l1", req["point"], k, ("lin", 0)))
+    return ops
+
+
+def eval_line(case, structure) -> str | None:
+    proc = case["proc"]
+    if proc["t"] not in ("C", "M") or structure["t"] != "C" or any(k["t"] != "L" for k in structure["kids"]):
+        return None
+    if any(r.get("call") == "adapter" for r in case["reqs"]):
+        return None
+    ids = {id(l): i for i, l in enumerate(leaves(proc))}
+    kids = structure["kids"]
+    toks = ["eval"]
+    if proc["t"] == "C":
+        toks += [_CK[proc.get("cache", "SimpleCache")], "-"]
+    else:
+        toks += ["s", _CK[proc.get("cache", "SimpleCache")]]
+    toks += ["K", str(len(kids))]
+    for l in kids:
+        toks += ["L", str(ids[id(l)]), _names(node_ins(l)), _names(node_outs(l)), _CK[l["spec"].get("cache", "SimpleCache")]]
+    ops = eval_ops(case)
+    seen = set()
+    for _, q, _, _ in ops:
+        def visit(leaf, env, seen=seen):
+            vals = {n: [c.v for c in env[n]] for n in node_ins(leaf)}
+            out = eval_poly(leaf["spec"], {n: [Dual(v) for v in vs] for n, vs in vals.items()})
+            tok = ("F", str(ids[id(leaf)]), _data(node_ins(leaf), vals), _data(node_outs(leaf), {o: [c.v for c in out[o]] for o in out}))
+            if tok not in seen:
+                seen.add(tok)
+                toks.extend(tok)
+
+        sem({"t": "C", "kids": kids}, seeds(case, q), visit)
+    for op, q, _, _ in ops:
+        toks += ["O", op, _data(node_ins(proc), {n: [Fraction(v) for v in q[n]] for n in q})]
+    return " ".join(toks)
+
+
+def compare_eval(case, run, ans: str) -> str | None:
+    """None when the implementation agrees with the answer to the `eval` line."""
+    ops = eval_ops(case)
+    parts = ans.split(" | ") if ans else []
+    steps = run["steps"]
+    outs = run["grammar_out"]
+    for (op, _, k, (what, j)), part in zip(ops, parts):
+        if k >= len(steps) or "error" in steps[k]:
+            return None  # the history stopped on an exception (judged by the oracle)
+        step = steps[k]
+        if op == "x":
+            if what != "pre":
+                continue
+            got = "X " + _data(outs, step["pre_out"][j])
+            if got != part:
+                return f"request {k}: execute #{j} returned `{got[:200]}`, model `{part[:200]}`"
+        else:
+            want = {}
+            for tok in part.split()[1:]:
+                lid, _, dat = tok.partition("@")
+                want[int(lid)] = dat
+            for lid, vals in step.get("lin_at", {}).items():
+                got = _data(list(vals), vals)
+                if want.get(lid) != got:
+                    return (f"request {k}: leaf {lid} computed its Jacobian at `{got[:150]}`, "
+                            f"the model linearizes it at `{str(want.get(lid))[:150]}`")
+    if len(parts) < len(ops) and not any("error" in st for st in steps):
+        return "model gave no answer for some operations"
+    return None
+
+
 # =========================================================================== implementation runner
 
 
@@ -750,8 +851,10 @@ def impl_run(case) -> dict[str, Any]:
         how = req.get("how", "names")
         try:
           with contextlib.redirect_stderr(io.StringIO()):  # worker threads print their tracebacks
+            step["pre_out"] = []
             for q in req.get("pre", []):
-                obj.execute({n: np.array([float(Fraction(v)) for v in vals]) for n, vals in q.items()})
+                data = obj.execute({n: np.array([float(Fraction(v)) for v in vals]) for n, vals in q.items()})
+                step["pre_out"].append({n: [F(e) for e in np.atleast_1d(data[n])] for n in res["grammar_out"]})
             if how == "all-in":
                 obj.add_differentiated_inputs()
             elif req["in"]:
@@ -1209,6 +1312,19 @@ def neighbours(case, rng):
     for q in c["reqs"]:
         q["all"] = True
     yield c
+    # every leaf made non-linear in all its inputs: a Jacobian computed at other data is then a wrong block
+    for coef in ("1", "2"):
+        c = copy.deepcopy(case)
+        for l in leaves(c["proc"]):
+            sp = l["spec"]
+            ins_ = [(n_, j) for n_, k in sp["ins"] for j in range(k)]
+            for comps in sp["poly"].values():
+                for ci, comp in enumerate(comps):
+                    comp.setdefault("quad", [])
+                    for a, (n_, j) in enumerate(ins_):
+                        m_, i_ = ins_[(a + ci + 1) % len(ins_)]
+                        comp["quad"].append([n_, j, m_, i_, coef])
+        yield c
 
 
 # =========================================================================== run
@@ -1330,8 +1446,11 @@ def check_cases(res: Result, cases, scope: bool, rng) -> None:
         run = impl_run(c)
         runs.append(run)
         lines.append(case_line(c, run["structure"]))
-    answers = common.run_lean_driver(PID, lines)
-    for case, run, line, ans in zip(cases, runs, lines, answers):
+    elines = [eval_line(c, run["structure"]) if scope else None for c, run in zip(cases, runs)]
+    answers = common.run_lean_driver(PID, lines + [e for e in elines if e is not None])
+    eanswers = iter(answers[len(lines):])
+    eans = [next(eanswers) if e is not None else None for e in elines]
+    for case, run, line, ans, eline, ean in zip(cases, runs, lines, answers, elines, eans):
         res.evaluations += 1
         for ft in features(case):
             res.count(ft)
@@ -1355,6 +1474,9 @@ def check_cases(res: Result, cases, scope: bool, rng) -> None:
                 "protocol_line": case_line(small, r2["structure"]),
             })
         diff = compare(case, run, ans)
+        if diff is None and eline is not None:
+            res.count("eval-line(flat chain: executions + linearization points vs model)")
+            diff = compare_eval(case, run, ean)
         if diff is None:
             res.traces_validated += 1
             continue
@@ -1396,15 +1518,32 @@ def check_cases(res: Result, cases, scope: bool, rng) -> None:
                     break
         res.count("failing-input-search-cases", tried)
         if not found:
-            small = shrink(case, lambda c: compare(c, (r := impl_run(c)), common.run_lean_driver(PID, [case_line(c, r["structure"])])[0]) is not None, budget=40)
+            small = shrink(case, lambda c: disagreement(c) is not None, budget=40)
             r2 = impl_run(small)
             line2 = case_line(small, r2["structure"])
+            eline2 = eval_line(small, r2["structure"])
             res.violate(
                 "correspondence", "model-vs-impl",
-                "implementation and Lean model disagree on a request history (no property-violating input found): " + diff[:300],
+                "implementation and Lean model disagree on a request history (no property-violating input found): " + (disagreement(small) or diff)[:300],
                 {"case": small, "protocol_line": line2, "impl": impl_lines(small, r2),
-                 "model": common.run_lean_driver(PID, [line2])[0], "correspondence": "Driver/C09.lean `case`"},
+                 "model": common.run_lean_driver(PID, [line2])[0],
+                 "eval_line": eline2, "eval_model": common.run_lean_driver(PID, [eline2])[0] if eline2 else None,
+                 "correspondence": "Driver/C09.lean `case` and `eval`"},
             )
+
+
+def disagreement(c) -> str | None:
+    """Difference between the implementation and the model on a case (`case` line, then `eval` line)."""
+    r = impl_run(c)
+    lines = [case_line(c, r["structure"])]
+    e = eval_line(c, r["structure"])
+    if e is not None:
+        lines.append(e)
+    a = common.run_lean_driver(PID, lines)
+    d = compare(c, r, a[0])
+    if d is None and e is not None:
+        d = compare_eval(c, r, a[1])
+    return d
 
 
 def _lin_leaf(name, ins, outs, coefs):
